@@ -50,11 +50,53 @@ def tmv(*a):
     return ThrustModeValues(dict(pairs))
 
 
+ATM_TOL = 2e-4   # Fix.tla is good to a few 1e-5 on these compositions (specs/ei/Atmos.tla)
+
+
+def eval_atmos(row):
+    """One altitude of specs/ei/Atmos.tla (micro-units) against the real ISA / FFM2 / BFFM2 functions."""
+    from AEIC.emissions.ei.hcco import EI_HCCO
+    from AEIC.emissions.ei.nox import BFFM2_EINOx
+    from AEIC.emissions.utils import get_SLS_equivalent_fuel_flow
+    from AEIC.utils.standard_atmosphere import pressure_at_altitude_isa_bada4, temperature_at_altitude_isa_bada4
+
+    h = float(row['h'])
+    theta, delta = row['theta'] / 1e6, row['delta'] / 1e6
+    devs = []
+
+    def cmp(key, what, got, want):
+        if not (math.isfinite(got) and abs(got - want) <= ATM_TOL * max(abs(want), 1e-2)):
+            devs.append((key, f'{what} = {got!r}; published equation (Atmos.tla): {want!r}'))
+
+    cmp('isa:temperature-ratio', f'T({h:g} m) / 288.15', float(temperature_at_altitude_isa_bada4(np.array([h]))[0]) / 288.15, theta)
+    cmp('isa:pressure-value', f'p({h:g} m) / 101325', float(pressure_at_altitude_isa_bada4(np.array([h]))[0]) / 101325.0, delta)
+    # the ambient state handed to the emission functions is the specification's, so every clause stands alone
+    P = delta * 101325.0
+    for m, want in row['ffm2'].items():
+        got = float(np.asarray(get_SLS_equivalent_fuel_flow(np.array([2.0]), np.array([P]), np.array([theta * 288.15]), np.array([int(m) / 100.0]))).ravel()[0])
+        cmp('ffm2:factor', f'FFM2 sea-level equivalent of 1 kg/s per engine at {h:g} m, Mach {int(m) / 100:g}', got, want / 1e6)
+    ff_cal = tmv(0.1, 0.3, 0.9, 1.1)
+    for d in row['hcco']:
+        T = theta * 288.15 + float(d)
+        x_ei = tmv(8.0, 4.0, 1.0, 0.5)
+        ev = np.array([0.2, 0.6])
+        amb = EI_HCCO(ev.copy(), x_ei, ff_cal, Tamb=np.array([T, T]), Pamb=np.array([P, P]))
+        ref = EI_HCCO(ev.copy(), x_ei, ff_cal, Tamb=np.array([288.15, 288.15]), Pamb=np.array([101325.0, 101325.0]))
+        for j in range(2):
+            cmp('hcco:ambient-correction', f'HC/CO index at {h:g} m, ISA{int(d):+d} K relative to sea-level ISA (flow {ev[j]} kg/s)', float(amb[j]) / float(ref[j]), row['hcco'][d] / 1e6)
+        r = BFFM2_EINOx(np.array([0.2, 1.0]), tmv(10.0, 10.0, 10.0, 10.0), ff_cal, Tamb=np.array([T, T]), Pamb=np.array([P, P]))
+        for j in range(2):
+            cmp('nox:ambient-humidity-correction', f'NOx index at {h:g} m, ISA{int(d):+d} K relative to the sea-level-static index', float(np.asarray(r.NOxEI)[j]) / 10.0, row['nox'][d] / 1e6)
+    return devs
+
+
 def eval_case(job):
     warnings.simplefilter('ignore')
     kind, case = job
     c, o = case['c'], case['o']
     try:
+        if kind == 'Atm':
+            return eval_atmos(case)
         if kind == 'Isa':
             from AEIC.utils.standard_atmosphere import (
                 altitude_from_pressure_isa_bada4,
@@ -290,13 +332,11 @@ def run(ctx: Ctx):
     ctx.rule = (
         'lattice cases per function (TLC-enumerated): ISA 0..26 km every 500 m; thrust categories for all calibration triples over {1,2,4,6} x 15 flows; '
         'sulfur 4 contents x 4 yields; HC/CO fit: calibration flows/indices as half-decade powers of ten x 11 evaluation flows (quick 24 057, thorough 180 224); '
-        'NOx regression: 6 318 calibration sets; FOA3 9 thrusts x 3 HC indices; SCOPE11 11 smoke numbers x 4 modes x 2 engine types; speciation 4 modes; non-trivial = clamped / tie / non-monotone calibration / stratospheric'
+        'NOx regression: 6 318 calibration sets; FOA3 9 thrusts x 3 HC indices; ISA pressure ratio, FFM2 factor at Mach 0 / 0.4 / 0.8 / 0.95, HC/CO and NOx (humidity) ambient corrections at ISA and ISA+10 K as fixed-point numbers every 500 m up to 25 km (Atmos.tla); SCOPE11 11 smoke numbers x 4 modes x 2 engine types; speciation 4 modes; non-trivial = clamped / tie / non-monotone calibration / stratospheric'
     )
     ctx.not_covered += [
-        'numeric agreement of ISA pressure values with the published equations (only positivity, monotonicity and the pressure<->altitude round trip)',
-        'Fuel Flow Method 2 theta^3.8 * exp(0.2 M^2) factor (only sea-level-static value, linearity, finiteness)',
-        'BFFM2 NOx humidity / ambient correction magnitude (only regression slope through ratios at equal ambient state, linearity, speciation)',
-        'HC/CO ambient correction away from sea-level ISA; HC/CO for non-positive fuel flows',
+        'the transcendental equations are decided as numbers to 2e-4 relative on the 500 m lattice (six-decimal fixed point in TLA+, specs/ei/Atmos.tla): a deviation below that is not seen; HC/CO and NOx ambient corrections at ISA and ISA+10 K only',
+        'HC/CO for non-positive fuel flows',
         'SCOPE11 magnitude (decided: cap of the smoke number at 40, no-data values, monotonicity) and MEEM magnitudes (only finite and non-negative)',
     ]
     ctx.assumptions += ['sea-level ISA ambient state makes the ambient correction factors exactly 1', 'branch-condition ties of the HC/CO fit admit both outcomes']
@@ -314,11 +354,14 @@ def run(ctx: Ctx):
         tlc.check(ctx, 'ei/EI', f'ei/MC_{kind}.cfg', workers=8, sub=sub)
         em = tlc.check(ctx, 'ei/EIGen', f'ei/Gen_{kind}.cfg', workers=8, sub=sub)['emitted']
         jobs += [(kind, e) for e in em]
+    # the transcendental equations as numbers (six-decimal fixed point, specs/common/Fix.tla): one row per 500 m
+    tlc.check(ctx, 'ei/Atmos', 'ei/MC_Atmos.cfg', workers=4)
+    jobs += [('Atm', {'c': {'h': e['h']}, 'o': {}, **e}) for e in tlc.check(ctx, 'ei/Atmos', 'ei/Gen_Atmos.cfg', workers=1)['emitted']]
     ctx.exhaustive = True
     ctx.log(f'evaluating {len(jobs)} lattice cases on the real functions')
     for (kind, case), devs in zip(jobs, pmap(eval_case, jobs)):
         o = case['o']
-        nt = (kind == 'Hc' and (o['rule'] != 'regular' or len(o['alts']) > 1)) or (kind == 'Isa' and case['c']['h'] > 11000) or kind in ('Cat', 'Nox', 'Foa', 'Sox', 'Scope')
+        nt = kind == 'Atm' or (kind == 'Hc' and (o['rule'] != 'regular' or len(o['alts']) > 1)) or (kind == 'Isa' and case['c']['h'] > 11000) or kind in ('Cat', 'Nox', 'Foa', 'Sox', 'Scope')
         ctx.case_done((kind, case['c']), nontrivial=nt)
         if kind in ('Hc', 'Nox'):
             ctx.sample({'kind': kind, **case}, limit=4)
